@@ -505,7 +505,10 @@ Definition set_turns (st : state) (i : nat) (v : Z) : state * res unit :=
                Ok tt)
           | Err k => (st, Err k)
           end
-      | DStrand _ => (st, Err eType)          (* list(self.structure) with structure None *)
+      | DStrand es =>
+          (* wrap(.., self.size) first, then list(self.structure) with structure None *)
+          if Nat.eqb (length (make_strand_table_list sPlus (map fst es))) 0
+          then (st, Err eZeroDiv) else (st, Err eType)
       | _ => (st, Err eAttribute)
       end
   | None => (st, Err eBadRequest)
